@@ -221,6 +221,20 @@ def entries():
     for nm, cls in [("Linear", NL.PiecewiseLinearCDF), ("Quadratic", NL.PiecewiseQuadraticCDF), ("Cubic", NL.PiecewiseCubicCDF), ("RQ", NL.PiecewiseRationalQuadraticCDF)]:
         add("Piecewise%sCDF" % nm, "transform", (lambda cls=cls: cls([3], num_bins=4)), _ru(3), flags={"inv", "bounded01", "spline"})
         add("Piecewise%sCDF/tails" % nm, "transform", (lambda cls=cls: cls([3], num_bins=4, tails="linear", tail_bound=1.5)), _rn(3), flags={"inv", "spline"})
+    def flat_first_feature(cls, **kw):
+        # feature 0 with exactly flat parameters (a conditioner that starts at zero), the others generic
+        def make():
+            m = cls([2], num_bins=4, **kw)
+            with torch.no_grad():
+                for p in m.parameters():
+                    p[0].zero_()
+            return m
+
+        return make
+
+    for nm, cls in [("Quadratic", NL.PiecewiseQuadraticCDF), ("Cubic", NL.PiecewiseCubicCDF), ("RQ", NL.PiecewiseRationalQuadraticCDF)]:
+        add("Piecewise%sCDF/flat-feature" % nm, "transform", flat_first_feature(cls), _ru(2), flags={"inv", "bounded01", "spline", "noperturb"})
+    add("PiecewiseCubicCDF/tails+flat-feature", "transform", flat_first_feature(NL.PiecewiseCubicCDF, tails="linear", tail_bound=1.5), _rn(2), flags={"inv", "spline", "noperturb"})
     add("PiecewiseRQCDF/identity-init", "transform", lambda: NL.PiecewiseRationalQuadraticCDF([3], num_bins=4, tails="linear", tail_bound=2.0, identity_init=True), _rn(3), flags={"inv", "spline", "noperturb"})
     # ---- distributions
     add("StandardNormal", "dist", lambda: D.StandardNormal([3]), _rn(3), flags={"sample", "noparams", "mean"})
